@@ -27,7 +27,7 @@ FUNCTIONS = [
     "pyoak.node:ASTNode.duplicate",
 ]
 
-OPS = ["leaf", "parent", "duplicate", "dc_replace", "replace", "replace_raises", "detach", "detach_self", "roundtrip", "drop"]
+OPS = ["leaf", "parent", "duplicate", "dc_replace", "replace", "replace_raises", "detach", "detach_self", "roundtrip", "roundtrip_after_detach", "drop"]
 
 _COLLIDE: dict[int, int] = {}
 
@@ -189,7 +189,7 @@ def make_harness(K: int, first_ops: list[str], digest_sizes: list[int], max_hand
             allowed = first_ops if step == 0 and first_ops else OPS
             ops = [o for o in allowed if o in ("leaf",) or handles]
             if len(handles) >= max_handles:
-                ops = [o for o in ops if o not in ("leaf", "parent", "duplicate", "dc_replace", "replace", "roundtrip")] or ["drop"]
+                ops = [o for o in ops if o not in ("leaf", "parent", "duplicate", "dc_replace", "replace", "roundtrip", "roundtrip_after_detach")] or ["drop"]
             if step in restrict:
                 ops = [o for o in ops if o in restrict[step]]
             if step in forced:
@@ -264,6 +264,14 @@ def make_harness(K: int, first_ops: list[str], digest_sizes: list[int], max_hand
                     n = type(h).as_obj(h.as_dict())
                     history.append(f"h{len(handles)} = as_obj(h{hi}.as_dict())")
                     handles.append(n)
+                elif op == "roundtrip_after_detach":
+                    data = h.as_dict()
+                    h.detach()
+                    for o in _closure([h]):
+                        gone.add(o)
+                    n = type(h).as_obj(data)
+                    history.append(f"h{len(handles)} = as_obj(h{hi}.as_dict()) after h{hi}.detach()")
+                    handles.append(n)
                 elif op == "drop":
                     before = _closure(handles)
                     refs = {oid: weakref.ref(o) for oid, o in before.items()}
@@ -289,7 +297,7 @@ def make_harness(K: int, first_ops: list[str], digest_sizes: list[int], max_hand
     return harness
 
 
-CREATE = ["leaf", "parent", "duplicate", "dc_replace", "roundtrip"]
+CREATE = ["leaf", "parent", "duplicate", "dc_replace", "roundtrip", "roundtrip_after_detach"]
 
 
 def spec(tier: str, seed: int) -> Spec:
